@@ -11,10 +11,10 @@ From TV Require Import Fp.Model Fp.ProofsC12 Fp.Refute Fp.Current Extracted.Fact
 
 (* READING GUIDE
    [LIVE]       about the tree as it is (variant [current] from Extracted.Facts); pure_variant current = true
-                is discharged by computation (Fp/Current.v: cur_pure), so a regression of the --list --json
-                or the --dry/mkdir repair breaks the obligation.  No carve-outs: C12 has no open finding.
+                is discharged by computation (Fp/Current.v: cur_pure), so a regression of the --list --json,
+                the --dry/mkdir or the --dry/failing-sub-call repair breaks the obligation.  No carve-outs: C12 has no open finding.
    [ANY]        for every variant, under the explicit side condition pure_cond / pure_variant.
-   [HISTORICAL] the two findings, repaired in 2f7088d and 904692b (premises false for [current] today).   *)
+   [HISTORICAL] the three findings, repaired in 2f7088d, 904692b and 41513bc (premises false for [current] today).   *)
 
 (* --status implies dry (flags.go), every IsTaskUpToDate call site of RunTask/Status passes e.Dry,
    the checkers gate their writes on dry: the shapes the model hard-wires *)
@@ -96,6 +96,13 @@ Theorem C12_listjson_refuted :        (* 7.6 *)
 Proof. exact (fun a => ex_intro _ _ (ex_intro _ _ (proj2 (listjson_refuted current Checksum a method_cs_ne)))). Qed.
 Print Assumptions C12_listjson_refuted.
 
+Theorem C12_dry_failing_subcall_refuted :   (* [HISTORICAL] repaired in 41513bc: --dry, a `task:` sub-call whose
+                                               callee's precondition fails, statusOnError not guarded by !e.Dry *)
+  v_dry_fail_guard current = false ->
+  exists p s h, mon_C12 (snap_of s) (observe gmatch idH hx1 current p s h) = false.
+Proof. exact (fun a => ex_intro _ _ (ex_intro _ _ (ex_intro _ _ (dry_fail_refuted current a)))). Qed.
+Print Assumptions C12_dry_failing_subcall_refuted.
+
 Theorem C12_dry_mkdir_refuted :       (* 7.18 *)
   v_dry_mkdir_guard current = false ->
   exists p h, mon_C12 (snap_of w_init) (observe gmatch idH hx1 current p w_init h) = false.
@@ -107,6 +114,13 @@ Print Assumptions C12_dry_mkdir_refuted.
 Example C12_example :
   pure_variant repaired = true /\
   forallb (ev_pure current [w_task Checksum]) [(10, Invoke Status 0 AllOk); (12, Invoke Dry 0 AllOk); (14, Invoke Run 0 AllOk)]%N = true.
+Proof. split; vm_compute; reflexivity. Qed.
+
+(* [LIVE] the sub-call shape: with the guard file absent (w_init has no guard.flag) a --dry of an out-of-date
+   caller follows the sub-call, fails (exit 201) and leaves everything as it was *)
+Example C12_current_subcall_example :
+  map o_res (observe gmatch idH hx1 current [w_sub] w_init_flag h_dryfail) = [ROk; RFile; RFile; RFailed] /\
+  mon_C12 (snap_of w_init_flag) (observe gmatch idH hx1 current [w_sub] w_init_flag h_dryfail) = true.
 Proof. split; vm_compute; reflexivity. Qed.
 
 Example C12_current_example :
